@@ -42,8 +42,12 @@ class Ctx:
     def floor(self, what, count, minimum):
         self.analysed[what] = count
         if count < minimum:
-            raise AnalysisBroken("instance floor: %s = %d < %d (confirmed by hand)"
-                                 % (what, count, minimum))
+            # deferred: a definite violation found elsewhere takes precedence over "fewer
+            # instances than confirmed by hand"; with no violation the run is analysis-broken
+            if not hasattr(self, "floor_failures"):
+                self.floor_failures = []
+            self.floor_failures.append("instance floor: %s = %d < %d (confirmed by hand)"
+                                       % (what, count, minimum))
 
     def count(self, what, n):
         self.analysed[what] = n
@@ -194,6 +198,12 @@ def main(argv):
                                                              o["instance"]))
         else:
             new.append(o)
+    floors = getattr(cx, "floor_failures", [])
+    if floors and not new:
+        print("ANALYSIS-BROKEN property=%s: %s" % (pid, "; ".join(floors)))
+        return 2
+    for fl in floors:
+        print("note: %s (reported together with the violation(s) below)" % fl)
     outdir = os.path.join(os.environ.get("VERIF_OUT_DIR", os.path.join(VERIF, "out")), pid)
     os.makedirs(outdir, exist_ok=True)
     rc = 0
